@@ -17,7 +17,14 @@ func init() {
 			"(1) the wrapping token built by Core.wrapInCubbyhole is single-use (NumUses: 1), carries only the response-wrapping policy, and has TTL = ExplicitMaxTTL = the wrap TTL; the lease registered for it (the thing that expires it) carries that same entry's TTL and is not renewable; the payload and the wrap info are stored under that token's own cubbyhole (request ClientToken = the new token's ID, constant cubbyhole paths); " +
 			"(2) once wrapInCubbyhole ran, Core.handleCancelableRequest returns only wrapInCubbyhole's own (error) response or a fresh response whose only populated fields are WrapInfo and Warnings — never the original response; " +
 			"(3) the three sys/wrapping/{lookup,rewrap,unwrap} paths reach the request handlers only across validateWrappingToken == true, which is returned only for a looked-up token that IsWrappingToken accepts; third-party unwrap/rewrap consume the use count (UseTokenByID success) before reading the cubbyhole and revoke the token afterwards (deferred revokeOrphan), and the thirdParty flag that selects this is the constant true on every edge on which the token acted on was named in the request body (it is decided together with the choice of the token and is the value tested / handed to responseWrappingUnwrap, whose only caller is handleWrappingUnwrap); " +
-			"(4) the decrement is the locked read-modify-write of C19; (5) lookup reports creation_path from the stored wrap info.",
+			"(4) the decrement is the locked read-modify-write of C19; (5) lookup reports creation_path from the stored wrap info; " +
+			"(6) the re-read UseToken decrements is made with tainted=false, and lookupInternal hands out a stored entry only across 'NumUses < 0' being false or tainted being true, so a token whose use was consumed is invisible to it; " +
+			"(7) Core.handleCancelableRequest decides to wrap on the conjunction of the tabled facts only (response present, no error, not an error response, WrapInfo with a TTL, not wrapped yet), and handleRequest / handleLoginRequest set resp.WrapInfo on every path on which the effective wrap TTL is positive; " +
+			"(8) wrapInCubbyhole overwrites / stores the request path as creation path only when the request is not a rewrap and stores the carried-over path when it is; " +
+			"(9) every failing return of wrapInCubbyhole after CreateToken revokes the new token; " +
+			"(10) the response by which handleWrappingRewrap hands the payload on always carries a literal WrapInfo whose TTL is the stored creation TTL; " +
+			"(11) the built-in response-wrapping policy text names exactly cubbyhole/response [create, read] and sys/wrapping/unwrap [update], the policy is in the immutable table, and SetPolicy writes only across that table's refusal; " +
+			"(12) handleWrappingLookup reads the wrap info through a context switched to the namespace found from the looked-up token's NamespaceID.",
 		NotDecided: "'exactly one of k concurrent unwraps succeeds' (schedules); TTL expiry behaviour; that the cubbyhole backend isolates tokens (C12.4).",
 		Run:        runC18,
 	})
@@ -313,6 +320,7 @@ func runC18(c *eng.Ctx, thorough bool) {
 			c.Violation(f, "creation_path reported", f.Pos(), "lookup no longer reports creation_path", nil)
 		}
 	}
+	runC18Gaps2(c)
 }
 
 // c18NestedLit: the places the fields of the nested struct literal
